@@ -232,7 +232,18 @@ class KwProber:
 # replay machinery (also used to confirm witnesses before they are reported)
 
 
+_FFIX_JS = {}
+
+
 def ffix_js_entry(b, d, info=None):
+    key = (b["crate"], len(b["methods"]))
+    if key in _FFIX_JS and os.path.exists(_FFIX_JS[key]):
+        return _FFIX_JS[key]
+    _FFIX_JS[key] = _ffix_js_entry(b, d, info)
+    return _FFIX_JS[key]
+
+
+def _ffix_js_entry(b, d, info=None):
     """the JS backend refuses some method shapes of the ffix crate (its own gate: callbacks; crashes: C15's domain): every method is
     offered to the JS backend alone (methods are independent units) and the accepted ones form the JS input"""
     os.makedirs(d, exist_ok=True)
@@ -260,6 +271,15 @@ def ffix_js_entry(b, d, info=None):
     return p
 
 
+_BUILD_ALL = {}
+
+
+def build_all_once(tier):
+    if tier not in _BUILD_ALL:
+        _BUILD_ALL[tier] = c01.build_all(tier)
+    return _BUILD_ALL[tier]
+
+
 def materialise(w, d):
     """write the witness' bridge source, run the real tool, return (out dir, tool result)"""
     os.makedirs(d, exist_ok=True)
@@ -267,7 +287,7 @@ def materialise(w, d):
         entry = os.path.join(d, "lib.rs")
         open(entry, "w").write(w["source"])
     elif w.get("entry_kind", "").startswith("ffix:"):
-        b = c01.build_all(w["entry_kind"].split(":")[-1])
+        b = build_all_once(w["entry_kind"].split(":")[-1])
         entry = os.path.join(b["crate"], "src", "lib.rs")
         if w["entry_kind"].startswith("ffix:js:"):
             entry = ffix_js_entry(b, os.path.join(d, "ffix-js"))
@@ -454,7 +474,7 @@ def run(tier):
     timing = {}
 
     # ------------------------------------------------------------------ (A) shared ffix crate
-    b = c01.build_all(tier)
+    b = build_all_once(tier)
     if not b["ok"]:
         if b["stage"] == "cargo":
             rep.violation("C09|macro|ffix|" + U.norm_error(b["stderr"]), {"stage": "cargo", "crate": b["crate"], "errors": U.first_errors(b["stderr"], 12)},
@@ -683,13 +703,21 @@ def run(tier):
     groups = {}
     for j in done:
         if j["rc"] != 0:
-            groups.setdefault((j["unit"].uid, j["lang"], j["tag"], type_of(j["rel"])), []).append(j)
+            # the type whose generated file holds the first diagnostic (a header fails in every header that includes it)
+            cause = j["rel"]
+            for (f, _ln) in U.error_locations(j["text"]):
+                fa = os.path.abspath(f)
+                if fa.startswith(os.path.abspath(j["out"]) + os.sep):
+                    cause = os.path.relpath(fa, j["out"])
+                    break
+            j["cause"] = cause
+            groups.setdefault((j["unit"].uid, j["lang"], j["tag"], type_of(cause)), []).append(j)
     confirm = []
     for (uid, lang, tag, ty), js in sorted(groups.items(), key=lambda kv: kv[0]):
         u = js[0]["unit"]
         stds_failed = sorted({j["std"] for j in js if j["std"]})
         std_note = "" if lang != "cpp" or len(stds_failed) == len(STDS) else "|%s-only" % stds_failed[0]
-        j0 = sorted(js, key=lambda j: (j["rel"], j["std"] or ""))[0]
+        j0 = sorted(js, key=lambda j: (type_of(j["rel"]) != ty, len(j["text"]), j["rel"], j["std"] or ""))[0]
         w = dict(u.witness_base(lang, j0["variant"]), std=j0["std"], file=j0["rel"], cmd=" ".join(j0["cmd"]), errors=U.first_errors(j0["text"], 6),
                  failing_files=sorted({"%s%s" % (x["rel"], (" -std=" + x["std"]) if x["std"] else "") for x in js}))
         base = os.path.basename(ty)
